@@ -423,6 +423,31 @@ def do_c07():
                                 report(f"C07:array-differs-from-object:change_pivot:view-{view}-{vname}", f"track {j} in a {view} view", {"tracks": P, "pivot": p0, "new_pivot": p1}); break
                 except Exception as e:
                     report(f"C07:raises:view-{vname}:{type(e).__name__}", f"{vname} helix array view raised {type(e).__name__}: {str(e)[:200]}", {"tracks": P, "pivot": p0, "new_pivot": p1, "nesting": vname})
+        # per-track pivots given the way docs/user-manual/helix.md writes them: ak.Array({"x": ..., "y": ..., "z": ...}, with_name="Vector3D")
+        # (for ragged tracks that is a record OF lists, not a list of records), both as initial pivot and as new pivot
+        if m >= 4:
+            try:
+                cnts = [1, m - 3, 2]
+                a = ak.unflatten(ak.Array(np.array(P)), cnts)
+                kw = {c: a[..., k] for k, c in enumerate(fields)}
+                pvs = [[rng.uniform(-3, 3) for _ in range(3)] for _ in range(m)]
+                col = lambda k: ak.unflatten(ak.Array(np.array([pv[k] for pv in pvs])), cnts)
+                docpv = ak.Array({"x": col(0), "y": col(1), "z": col(2)}, with_name="Vector3D")
+                bump("pivot-form:doc-record-of-lists")
+                hd = p3.helix_awk(**kw, pivot=docpv); od = hd.change_pivot(*p1); n_eval += 1
+                gd = ak.to_numpy(ak.flatten(od.dr, axis=None))
+                for j in range(m):
+                    wj = obj(P[j], pvs[j]).change_pivot(*p1).dr
+                    if len(gd) != m or abs(gd[j] - wj) > 1e-9 * scale(P[j], pvs[j], p1):
+                        report("C07:array-differs-from-object:per-track-initial-pivot:doc-form", f"track {j}: per-track initial pivot in the documented ak.Array(dict) form", {"tracks": P, "pivots": pvs, "new_pivot": p1}); break
+                hz = p3.helix_awk(**kw, pivot=tuple(p0)); oz = hz.change_pivot(docpv); n_eval += 1
+                gz = ak.to_numpy(ak.flatten(oz.dr, axis=None))
+                for j in range(m):
+                    wj = obj(P[j], p0).change_pivot(*pvs[j]).dr
+                    if len(gz) != m or abs(gz[j] - wj) > 1e-9 * scale(P[j], p0, pvs[j]):
+                        report("C07:array-differs-from-object:per-track-new-pivot:doc-form", f"track {j}: per-track new pivot in the documented ak.Array(dict) form", {"tracks": P, "pivot": p0, "new_pivots": pvs}); break
+            except Exception as e:
+                report(f"C07:raises:per-track-pivot:doc-form:{type(e).__name__}", f"per-track pivot written as in docs/user-manual/helix.md raised {type(e).__name__}: {str(e)[:160]}", {"tracks": P, "new_pivot": p1})
         # exact-boundary corner cases (turning angle exactly +-pi, atan2 exactly 0 / pi): array vs object must agree bit for bit
         if i * 4 < len(CORNERS):
             cs = CORNERS[i * 4:(i + 1) * 4]
